@@ -110,3 +110,31 @@ def label_roundtrip(sc: int, li: int) -> bool:
     v = SPEC[sc][2](label)
     V.reached()
     return v == val and lo <= v <= hi and SPEC[sc][1](v) == label
+
+
+def label_after_history(sc1: int, li: int, sc2: int, v: int) -> bool:
+    """
+    pre: 0 <= sc1 < NSC and 0 <= sc2 < NSC and 0 <= li < 11 and -2 <= v <= 102
+    post: _
+    """
+    sc1, sc2 = pick(sc1, NSC), pick(sc2, NSC)
+    rows = SPEC[sc1][3]
+    if li >= len(rows):
+        return True
+    li = pick(li, len(rows))
+    label = rows[li][0]
+    # history: the label is converted by its own scale and an arbitrary value by the second scale ...
+    SPEC[sc1][2](label)
+    try:
+        SPEC[sc2][1](v)
+    except ValueError:
+        pass
+    # ... after which the second scale must still answer from its own table only
+    table = LABELS[sc2]
+    try:
+        got = SPEC[sc2][2](label)
+    except ValueError:
+        V.reached()
+        return label not in table
+    V.reached()
+    return label in table and got == table[label]
